@@ -107,12 +107,15 @@ pub fn worker_main(args: &[String]) -> i32 {
     let trace = arg(args, "--trace").map(|s| s.to_string());
     let hashes = arg(args, "--hashes").map(|s| s.to_string());
     let only_block: Option<u64> = arg(args, "--only-block").and_then(|s| s.parse().ok());
+    let solo = arg(args, "--solo").is_some();
+    let (shard, nshards) = if solo { (0, 1) } else { (shard, nshards) };
     crate::sut::install_hook();
     start_watchdog();
     let h = std::thread::Builder::new()
         .stack_size(WORK_STACK)
         .spawn(move || {
             let mut ctx = Ctx::new(&prop, tier, seed, shard, nshards, &config);
+            ctx.solo = solo;
             ctx.stats.digest_block = mon.digest_block();
             if let Some(b) = only_block {
                 ctx.stats.dump_block = Some(b);
@@ -353,7 +356,20 @@ pub fn run_monitor(mon: &dyn Monitor, tier: Tier, seed: u64) -> Merged {
         }
     }
     let handles: Vec<_> = children.into_iter().map(|(cfg, shard, ch)| std::thread::spawn(move || collect(ch, &cfg, shard))).collect();
-    let outs: Vec<WorkerOut> = handles.into_iter().filter_map(|h| h.join().ok()).collect();
+    let mut outs: Vec<WorkerOut> = handles.into_iter().filter_map(|h| h.join().ok()).collect();
+    // solo phase: one more worker per configuration, run after the others and one at a time, for
+    // sub-checks that need the machine's cores for themselves (races between the threads of a fresh
+    // process do not show when 16 busy workers make every such process run almost serially)
+    if mon.solo_phase() {
+        for cfg in &configs {
+            let hf = format!("{}/{}-{}-solo-{}.hashes", tmp, prop, cfg, std::process::id());
+            hash_files.push(hf.clone());
+            match spawn_worker(prop, tier, seed, cfg, NSHARDS, &["--hashes".to_string(), hf, "--solo".to_string(), "1".to_string()]) {
+                Ok(ch) => outs.push(collect(ch, cfg, NSHARDS)),
+                Err(e) => merged.inconclusive.push(format!("cannot start solo worker ({}): {}", cfg, e)),
+            }
+        }
+    }
     for o in outs {
         let mut got_result = false;
         for line in o.stdout.lines() {
@@ -390,7 +406,11 @@ pub fn run_monitor(mon: &dyn Monitor, tier: Tier, seed: u64) -> Merged {
             // abnormal death: pin it on the input by re-running the shard in trace mode
             let tf = format!("{}/{}-{}-{}-{}.trace", tmp, prop, o.config, o.shard, std::process::id());
             let what = format!("exit={:?} signal={:?}", o.status, o.signal);
-            let pinned = spawn_worker(prop, tier, seed, &o.config, o.shard, &["--trace".to_string(), tf.clone()]).ok().map(|ch| collect(ch, &o.config, o.shard));
+            let mut targs = vec!["--trace".to_string(), tf.clone()];
+            if o.shard == NSHARDS {
+                targs.extend(["--solo".to_string(), "1".to_string()]);
+            }
+            let pinned = spawn_worker(prop, tier, seed, &o.config, o.shard, &targs).ok().map(|ch| collect(ch, &o.config, o.shard));
             let again_dead = pinned.as_ref().map(|p| !p.stdout.contains("RESULT ")).unwrap_or(false);
             let case = last_line(&tf).and_then(|l| J::parse(&l).ok());
             let _ = std::fs::remove_file(&tf);
